@@ -9,7 +9,7 @@ Local Open Scope list_scope.
 (* ------------------------------------------------------------------------------------------- *)
 (* Canonical values *)
 
-Definition canon_grace (g : N) : Prop := g mod ns_per_ms = 0.
+Definition canon_grace (g : N) : Prop := g mod ns_per_ms = 0 /\ g / ns_per_ms <= max_grace_ms.
 Definition canon_dec (d : dec) : Prop := fst d = 0 -> d = dec_zero.
 
 Definition canon_opt {A} (P : A -> Prop) (o : option A) : Prop :=
@@ -42,13 +42,17 @@ Definition canon_config (c : config) : Prop :=
 
 Lemma grace_rt : forall g, canon_grace g -> g / ns_per_ms * ns_per_ms = g.
 Proof.
-  intros g H. unfold canon_grace in H.
+  intros g [H _].
   pose proof (N.div_mod g ns_per_ms) as E. rewrite H in E.
   rewrite N.mul_comm. symmetry. rewrite N.add_0_r in E. apply E. unfold ns_per_ms. discriminate.
 Qed.
 
-Lemma grace_canon : forall ms, canon_grace (ms * ns_per_ms).
-Proof. intro ms. unfold canon_grace. apply N.mod_mul. unfold ns_per_ms. discriminate. Qed.
+Lemma grace_canon : forall ms, ms <= max_grace_ms -> canon_grace (ms * ns_per_ms).
+Proof.
+  intros ms H. unfold canon_grace. split.
+  - apply N.mod_mul. unfold ns_per_ms. discriminate.
+  - rewrite N.div_mul by (unfold ns_per_ms; discriminate). exact H.
+Qed.
 
 Lemma dec_rt : forall d, canon_dec d -> dec_shift 18 (dec_shift (-18) d) = d.
 Proof.
@@ -65,7 +69,10 @@ Proof.
 Qed.
 
 Lemma d_grace_enc : forall g, canon_grace g -> d_grace (enc_grace g) = Some (Some g).
-Proof. intros g H. unfold d_grace, enc_grace. rewrite grace_rt by exact H. reflexivity. Qed.
+Proof.
+  intros g H. unfold d_grace, enc_grace. destruct H as [H1 H2].
+  apply N.leb_le in H2. rewrite H2. rewrite grace_rt by (split; [exact H1 | apply N.leb_le, H2]). reflexivity.
+Qed.
 
 Lemma d_min_enc : forall d, canon_dec d -> d_min (enc_min d) = Some (Some d).
 Proof. intros d H. unfold d_min, enc_min. rewrite dec_rt by exact H. reflexivity. Qed.
@@ -73,7 +80,8 @@ Proof. intros d H. unfold d_min, enc_min. rewrite dec_rt by exact H. reflexivity
 Lemma d_grace_canon : forall j g, d_grace j = Some (Some g) -> canon_grace g.
 Proof.
   intros j g H. destruct j as [| | |l| | |]; try discriminate. destruct l; try discriminate.
-  cbn in H. injection H as <-. apply grace_canon.
+  cbn [d_grace] in H. destruct (n <=? max_grace_ms) eqn:E; [|discriminate].
+  injection H as <-. apply grace_canon. apply N.leb_le, E.
 Qed.
 
 Lemma d_min_canon : forall j d, d_min j = Some (Some d) -> canon_dec d.
@@ -311,7 +319,7 @@ Proof.
   destruct (d_grace (field FGrace o)) as [gr|] eqn:Eg; try discriminate.
   destruct (d_arr d_relay1 (field FRelays o)) as [rs|]; try discriminate.
   assert (Hcg : canon_grace (or_else gr 0)).
-  { destruct gr as [g|]; cbn; [eapply d_grace_canon, Eg | reflexivity]. }
+  { destruct gr as [g|]; cbn; [eapply d_grace_canon, Eg | split; [reflexivity | cbv; discriminate]]. }
   destruct en, rs; try discriminate; injection H as <-; split; cbn; try exact Hcg; congruence.
 Qed.
 
